@@ -47,7 +47,31 @@ int Normaliser::polyAtom(const char *kind, const Poly &p, int rep, int bytes) {
   if (it != polyAtoms.end()) return it->second;
   // the representative argument term keeps the atom evaluable; equal polynomials share one atom
   int t = TT.mk(std::string(kind) == "invpoly" ? "inv" : std::string(kind) == "abspoly" ? "abs" : "sqrt", {rep}, 0, bytes);
-  polyAtoms[key] = t; return t;
+  polyAtoms[key] = t; if (std::string(kind) == "invpoly") invKey[t] = p; return t;
+}
+// A rational identity is decided on its numerator: for an atom v = inv(D), P = sum_k v^k P_k vanishes wherever D != 0
+// iff sum_k P_k D^(K-k) does.  Atoms are eliminated newest first (a nested denominator was created before the atom
+// whose polynomial contains it), so every step removes one atom and introduces none.
+bool Normaliser::zeroModDenominators(Poly p) {
+  for (int round = 0; round < 64; round++) {
+    if (p.empty()) return true;
+    if (capped || pastDeadline()) return false;
+    int v = -1; int K = 0;
+    for (auto &kv : p) for (auto &ve : kv.first) if (ve.second > 0 && invKey.count(ve.first) && ve.first > v) v = ve.first;
+    if (v < 0) return false;
+    for (auto &kv : p) for (auto &ve : kv.first) if (ve.first == v) K = std::max(K, ve.second);
+    const Poly D = invKey[v];
+    std::vector<Poly> pw(K + 1); pw[0] = pconst(Q(1)); for (int k = 1; k <= K; k++) { pw[k] = pmul(pw[k - 1], D); if (pw[k].size() > cap) { capped = true; return false; } }
+    Poly s;
+    for (auto &kv : p) {
+      Mono m; int k = 0; for (auto &ve : kv.first) { if (ve.first == v) k = ve.second; else m.push_back(ve); }
+      if (k < 0) return false;
+      Poly one; one[m] = kv.second; padd(s, pmul(one, pw[K - k]), 1);
+      if (s.size() > cap) { capped = true; return false; }
+    }
+    p = s;
+  }
+  return false;
 }
 Poly Normaliser::atom(int t) { atoms++; if (C) { int ct = C->canon(t); if (ct != t) { const Term &y = TT.t[ct]; if (y.op == TT.OP_C) { Poly p; if (y.k) p[Mono()] = Q((long long)y.k); return p; } if (y.op == TT.OP_ADD || y.op == TT.OP_SUB || y.op == TT.OP_MUL) return norm(ct, false); /* the canonical form became an integer ring expression: expand it */ t = ct; } } Poly p; p[Mono{{t, 1}}] = Q(1); return p; }
 
@@ -268,6 +292,8 @@ int Canon::canon(int t) {
     else if (y.op == TT.OP_CONCAT) { int pos = 0; for (int a : y.a) { int w = TT.t[a].bytes; if (lo >= pos && lo + len <= pos + w) { r = (lo == pos && len == w) ? a : canon(TT.mk(TT.OP_PIECE, {a}, lo - pos, len)); break; } pos += w; } }
   }
   else if (x.op == TT.OP_SELECT && x.a[1] == x.a[2]) r = x.a[1];
+  else if (x.op == TT.OP_SELECT && TT.t[x.a[0]].op == TT.OP_C) r = x.a[(TT.t[x.a[0]].k & 1) ? 1 : 2];
+  else if (x.op == TT.OP_SELECT && x.bytes == 1 && TT.t[x.a[1]].op == TT.OP_C && TT.t[x.a[2]].op == TT.OP_C && ((TT.t[x.a[1]].k ^ TT.t[x.a[2]].k) & 1)) r = (TT.t[x.a[1]].k & 1) ? x.a[0] : canon(TT.mk(TT.OP_NOT, {x.a[0]}, 0, 1)); // select(c,true,false) == c
   else if (x.op == TT.OP_SELECT && OPS.name(TT.t[x.a[0]].op) == "icmp.slt" && TT.t[TT.t[x.a[0]].a[1]].op == TT.OP_C && TT.t[TT.t[x.a[0]].a[1]].k == 0 && TT.t[x.a[0]].a[0] == x.a[2] &&
            TT.t[x.a[1]].op == TT.OP_SUB && TT.t[TT.t[x.a[1]].a[0]].op == TT.OP_C && TT.t[TT.t[x.a[1]].a[0]].k == 0 && TT.t[x.a[1]].a[1] == x.a[2]) r = TT.mk("abs", {x.a[2]}, 0, x.bytes);
   else if (x.op == TT.OP_SELECT && TT.t[x.a[0]].op == TT.OP_NOT) r = canon(TT.mk(TT.OP_SELECT, {TT.t[x.a[0]].a[0], x.a[2], x.a[1]}, 0, x.bytes));
@@ -511,46 +537,55 @@ bool evalBits(int t, int point, std::unordered_map<int, uint64_t> &memo, uint64_
   out = r & m; memo[t] = out; return true;
 }
 
+// Real-number evaluation in long double with a running forward error bound (g_realErr[t] bounds |computed - exact| for
+// term t): a refutation must not be an artefact of cancellation between huge intermediates, and a comparison whose
+// operands are closer than their error bounds cannot steer a select reliably (the point is then not evaluable).
+static std::unordered_map<int, long double> g_realErr;
+long double realErrOf(int t) { auto it = g_realErr.find(t); return it == g_realErr.end() ? 0.0L : it->second; }
+void realErrReset() { g_realErr.clear(); }
 bool evalReal(int t, int point, std::unordered_map<int, long double> &memo, long double &out) {
   auto it = memo.find(t);
   if (it != memo.end()) { out = it->second; return true; }
-  const Term &x = TT.t[t]; const std::string op = OPS.name(x.op);
-  if (x.op == TT.OP_SYM) { const SymNS &ns = TT.ns[x.a[0]]; uint64_t b = symBits(x.a[0], x.k, point); out = ns.fp ? (long double)bitsToFp(b, ns.esz) : (long double)sextB(b, ns.esz * 8); if (ns.isbool) out = (long double)(b & 1); memo[t] = out; return true; }
-  if (x.op == TT.OP_C) { out = (long double)x.k; memo[t] = out; return true; }
-  if (x.op == TT.OP_CF) { out = TT.cfval(t); memo[t] = out; return true; }
-  if (x.op == TT.OP_RATC) { out = (long double)x.k / (long double)x.bytes; memo[t] = out; return true; }
-  if (x.op == TT.OP_SELECT) { long double c; if (!evalReal(x.a[0], point, memo, c)) return false; if (!evalReal(x.a[c != 0 ? 1 : 2], point, memo, out)) return false; memo[t] = out; return true; }
-  std::vector<long double> v(x.a.size());
-  for (size_t i = 0; i < x.a.size(); i++) if (!evalReal(x.a[i], point, memo, v[i])) return false;
-  long double r = 0;
-  if (x.op == TT.OP_FADD || x.op == TT.OP_ADD) r = v[0] + v[1];
-  else if (x.op == TT.OP_FSUB || x.op == TT.OP_SUB) r = v[0] - v[1];
-  else if (x.op == TT.OP_FMUL || x.op == TT.OP_MUL) r = v[0] * v[1];
-  else if (x.op == TT.OP_FDIV) { if (v[1] == 0) return false; r = v[0] / v[1]; }
-  else if (op == "inv") { if (v[0] == 0) return false; r = 1 / v[0]; }
-  else if (x.op == TT.OP_FNEG) r = -v[0];
-  else if (x.op == TT.OP_FABS || op == "abs") r = fabsl(v[0]);
-  else if (x.op == TT.OP_FMA || x.op == TT.OP_FMULADD) r = v[0] * v[1] + v[2];
-  else if (x.op == TT.OP_SQRT) { if (v[0] < 0) return false; r = sqrtl(v[0]); }
-  else if (x.op == TT.OP_SHL) { if (v[1] < 0 || v[1] > 62) return false; r = v[0] * (long double)((long long)1 << (int)v[1]); }
+  const Term &x = TT.t[t]; const std::string op = OPS.name(x.op); const long double U = 1.1e-19L;
+  if (x.op == TT.OP_SYM) { const SymNS &ns = TT.ns[x.a[0]]; uint64_t b = symBits(x.a[0], x.k, point); out = ns.fp ? (long double)bitsToFp(b, ns.esz) : (long double)sextB(b, ns.esz * 8); if (ns.isbool) out = (long double)(b & 1); memo[t] = out; g_realErr[t] = 0; return true; }
+  if (x.op == TT.OP_C) { out = (long double)x.k; memo[t] = out; g_realErr[t] = 0; return true; }
+  if (x.op == TT.OP_CF) { out = TT.cfval(t); memo[t] = out; g_realErr[t] = 0; return true; }
+  if (x.op == TT.OP_RATC) { out = (long double)x.k / (long double)x.bytes; memo[t] = out; g_realErr[t] = U * fabsl(out); return true; }
+  if (x.op == TT.OP_SELECT) { long double c; if (!evalReal(x.a[0], point, memo, c)) return false; int pick = x.a[c != 0 ? 1 : 2]; if (!evalReal(pick, point, memo, out)) return false; memo[t] = out; g_realErr[t] = realErrOf(pick); return true; }
+  std::vector<long double> v(x.a.size()), e(x.a.size());
+  for (size_t i = 0; i < x.a.size(); i++) { if (!evalReal(x.a[i], point, memo, v[i])) return false; e[i] = realErrOf(x.a[i]); }
+  long double r = 0, er = 0;
+  auto A = [&](int i) { return fabsl(v[i]); };
+  if (x.op == TT.OP_FADD || x.op == TT.OP_ADD) { r = v[0] + v[1]; er = e[0] + e[1]; }
+  else if (x.op == TT.OP_FSUB || x.op == TT.OP_SUB) { r = v[0] - v[1]; er = e[0] + e[1]; }
+  else if (x.op == TT.OP_FMUL || x.op == TT.OP_MUL) { r = v[0] * v[1]; er = A(0) * e[1] + A(1) * e[0] + e[0] * e[1]; }
+  else if (x.op == TT.OP_FDIV) { if (A(1) <= 2 * e[1] || v[1] == 0) return false; r = v[0] / v[1]; er = (e[0] + fabsl(r) * e[1]) / (A(1) - e[1]); }
+  else if (op == "inv") { if (A(0) <= 2 * e[0] || v[0] == 0) return false; r = 1 / v[0]; er = fabsl(r) * e[0] / (A(0) - e[0]); }
+  else if (x.op == TT.OP_FNEG) { r = -v[0]; er = e[0]; }
+  else if (x.op == TT.OP_FABS || op == "abs") { r = fabsl(v[0]); er = e[0]; }
+  else if (x.op == TT.OP_FMA || x.op == TT.OP_FMULADD) { r = v[0] * v[1] + v[2]; er = A(0) * e[1] + A(1) * e[0] + e[0] * e[1] + e[2]; }
+  else if (x.op == TT.OP_SQRT) { if (v[0] < 0 || v[0] <= 2 * e[0]) { if (v[0] == 0 && e[0] == 0) { r = 0; er = 0; } else return false; } else { r = sqrtl(v[0]); er = e[0] / (2 * sqrtl(v[0] - e[0])); } }
+  else if (x.op == TT.OP_SHL) { if (v[1] < 0 || v[1] > 62 || e[1] != 0) return false; r = v[0] * (long double)((long long)1 << (int)v[1]); er = e[0] * (long double)((long long)1 << (int)v[1]); }
   else if (x.op == TT.OP_NOT) r = v[0] != 0 ? 0 : 1;
   else if (x.op == TT.OP_GAND) { r = 1; for (auto y : v) if (y == 0) r = 0; }
   else if (x.op == TT.OP_GOR) { r = 0; for (auto y : v) if (y != 0) r = 1; }
   else if (x.op == TT.OP_TRUNC1) r = v[0] != 0;
   else if (op.compare(0, 5, "fcmp.") == 0 || op.compare(0, 5, "icmp.") == 0) {
     std::string p = op.substr(5); if (p.size() == 3 && (p[0] == 'o' || p[0] == 'u' || p[0] == 's') && op[0] == 'f') p = p.substr(1); else if (op[0] == 'i' && p.size() == 3) p = p.substr(1);
+    if (p != "rd" && p != "no" && fabsl(v[0] - v[1]) <= 4 * (e[0] + e[1]) && (e[0] + e[1]) > 0) return false; // the operands cannot be ordered reliably at this point
     if (p == "eq") r = v[0] == v[1]; else if (p == "ne") r = v[0] != v[1]; else if (p == "lt") r = v[0] < v[1]; else if (p == "le") r = v[0] <= v[1]; else if (p == "gt") r = v[0] > v[1]; else if (p == "ge") r = v[0] >= v[1]; else if (p == "rd") r = 1; else if (p == "no") r = 0; else return false;
   }
-  else if (op == "sitofp" || op == "uitofp" || op == "fpext" || op == "fptrunc" || x.op == TT.OP_SEXT) r = v[0];
-  else if (x.op == TT.OP_ZEXT) { if (v[0] < 0) return false; r = v[0]; }
-  else if (op == "x86min" || op == "minnum" || op == "smin") r = std::min(v[0], v[1]);
-  else if (op == "x86max" || op == "maxnum" || op == "smax") r = std::max(v[0], v[1]);
-  else if (op == "reduce.add" || op == "reduce.fadd") { for (auto y : v) r += y; }
-  else if (op == "reduce.mul" || op == "reduce.fmul") { r = 1; for (auto y : v) r *= y; }
-  else if (op.compare(0, 5, "libm.") == 0) { std::string f = libmBase(op); if (v.size() == 1) { if (!libm1(f, v[0], r)) return false; } else if (v.size() == 2) { if (!libm2(f, v[0], v[1], r)) return false; } else return false; }
+  else if (op == "sitofp" || op == "uitofp" || op == "fpext" || op == "fptrunc" || x.op == TT.OP_SEXT) { r = v[0]; er = e[0]; }
+  else if (x.op == TT.OP_ZEXT) { if (v[0] < 0) return false; r = v[0]; er = e[0]; }
+  else if (op == "x86min" || op == "minnum" || op == "smin") { r = std::min(v[0], v[1]); er = std::max(e[0], e[1]); }
+  else if (op == "x86max" || op == "maxnum" || op == "smax") { r = std::max(v[0], v[1]); er = std::max(e[0], e[1]); }
+  else if (op == "reduce.add" || op == "reduce.fadd") { for (size_t i = 0; i < v.size(); i++) { r += v[i]; er += e[i] + U * fabsl(r); } }
+  else if (op == "reduce.mul" || op == "reduce.fmul") { r = 1; for (size_t i = 0; i < v.size(); i++) { er = fabsl(r) * e[i] + A((int)i) * er + er * e[i]; r *= v[i]; er += U * fabsl(r); } }
+  else if (op.compare(0, 5, "libm.") == 0) { std::string f = libmBase(op); if (v.size() == 1) { if (!libm1(f, v[0], r)) return false; if (e[0] > 1e-12L * (1 + A(0))) return false; er = 16 * U * fabsl(r) + 1e3L * e[0]; } else if (v.size() == 2) { if (!libm2(f, v[0], v[1], r)) return false; if (e[0] + e[1] > 1e-12L * (1 + A(0) + A(1))) return false; er = 16 * U * fabsl(r) + 1e3L * (e[0] + e[1]); } else return false; }
   else return false;
   if (!std::isfinite((double)r)) return false;
-  out = r; memo[t] = out; return true;
+  er += U * fabsl(r);
+  out = r; memo[t] = out; g_realErr[t] = er; return true;
 }
 
 // ================================================================ comparison
@@ -579,11 +614,14 @@ bool Comparer::refute(int a, int b, bool fp, int bytes, bool exactBits, std::str
       va = sa.str(); vb = sbb.str(); return true;
     } else {
       std::unordered_map<int, long double> m; long double x, y;
+      realErrReset();
       if (!evalReal(a, p, m, x) || !evalReal(b, p, m, y)) continue;
       evaluable = true;
       long double scale = std::max<long double>(1.0L, std::max(fabsl(x), fabsl(y)));
-      // intermediate magnitudes can exceed the result's; be conservative: only a gross difference refutes
+      // only a gross difference refutes, and only one that exceeds the accumulated evaluation error by a wide margin
+      // (intermediate magnitudes can exceed the result's by many orders)
       if (fabsl(x - y) <= 1e-7L * scale) continue;
+      if (fabsl(x - y) <= 1e4L * (realErrOf(a) + realErrOf(b))) continue;
       std::ostringstream s; std::set<int> sy = symsOf(a), sb = symsOf(b); sy.insert(sb.begin(), sb.end()); int n = 0;
       for (int t : sy) { if (n++ >= 12) { s << " ..."; break; } s << (n > 1 ? ", " : "") << TT.str(t) << "=" << symValueStr(t, p); }
       point = s.str(); std::ostringstream sa, sbb; sa.precision(17); sbb.precision(17); sa << (double)x; sbb << (double)y; va = sa.str(); vb = sbb.str(); return true;
@@ -640,6 +678,7 @@ static int resolveSel(int t, const std::map<int, bool> &val, std::unordered_map<
     auto cst = [&](int a, int64_t &v) { const Term &y = TT.t[a]; if (y.op != TT.OP_C) return false; v = y.k; return true; };
     int64_t c0, c1;
     if (x.op == TT.OP_SELECT && cst(x.a[0], c0)) r = x.a[(c0 & 1) ? 1 : 2];
+    else if (x.op == TT.OP_SELECT && x.a[1] == x.a[2]) r = x.a[1];
     else if (x.op == TT.OP_NOT && cst(x.a[0], c0)) r = TT.cint((c0 & 1) ? 0 : 1, 1);
     else if ((x.op == TT.OP_ZEXT) && x.k == 1 && cst(x.a[0], c0)) r = TT.cint(c0 & 1, x.bytes);
     else if ((x.op == TT.OP_SEXT) && x.k == 1 && cst(x.a[0], c0)) r = TT.cint((c0 & 1) ? -1 : 0, x.bytes);
@@ -692,6 +731,7 @@ CmpResult Comparer::compare(int a, int b, const std::string &mode, bool fp, int 
   if (mode == "ALG" || (mode == "EXACT" && !fp)) {
     Poly pa = N.norm(a, fp), pb = N.norm(b, fp);
     if (!N.capped && !N.overflow && pa == pb) { res.how = "polynomial"; nPoly++; return res; }
+    if (!N.capped && !N.overflow && mode == "ALG" && !N.invKey.empty()) { Poly d = pa; padd(d, pb, -1); if (N.zeroModDenominators(d)) { res.how = "polynomial (denominators cleared)"; nPoly++; return res; } }
     if (N.capped || N.overflow) { res.v = V_UNDECIDED; res.how = "normal form exceeded the size cap"; nUndecided++; return res; }
     if (res.got.empty()) { res.got = polyStr(pa); res.expected = polyStr(pb); }
     if (mode == "ALG" && !polyHasAtoms(pa) && !polyHasAtoms(pb)) structuralOnly = true; // atom-free forms: the mismatch is complete
@@ -714,7 +754,7 @@ CmpResult Comparer::compare(int a, int b, const std::string &mode, bool fp, int 
       int pick = -1;
       for (int c : conds) { std::set<int> inner, sn; std::function<void(int)> d2 = [&](int t) { if (!sn.insert(t).second) return; const Term &x = TT.t[t]; if (x.op == TT.OP_SYM || x.op == TT.OP_PTR) return; if (t != c && isCmpAtom(x)) inner.insert(t); for (int a : x.a) d2(a); }; d2(c); if (inner.empty()) { pick = c; break; } }
       if (pick < 0 || depth > 48) {
-        if (mode == "ALG" || (mode == "EXACT" && !fp)) { Normaliser N2; N2.cap = N.cap; N2.C = &C2; Poly pa = N2.norm(xa, fp), pb = N2.norm(xb, fp); if (!N2.capped && !N2.overflow && pa == pb) return true; }
+        if (mode == "ALG" || (mode == "EXACT" && !fp)) { Normaliser N2; N2.cap = N.cap; N2.C = &C2; Poly pa = N2.norm(xa, fp), pb = N2.norm(xb, fp); if (!N2.capped && !N2.overflow && pa == pb) return true; if (!N2.capped && !N2.overflow && mode == "ALG" && !N2.invKey.empty()) { Poly d = pa; padd(d, pb, -1); if (N2.zeroModDenominators(d)) return true; } }
         if (mode == "MINMAX") { std::set<int> sa, sb; int ka = 0, kb = 0; bool ok = true; mmFlatten(C2, xa, 0, sa, ka, ok); mmFlatten(C2, xb, 0, sb, kb, ok); if (sa == sb && (ka == kb || sa.size() == 1)) return true; }
         if (getenv("IRFLOW_DEBUG")) { fprintf(stderr, "split leaf mismatch depth %d: %s  VS  %s\n", depth, TT.str(xa).c_str(), TT.str(xb).c_str()); for (auto &kv : val) fprintf(stderr, "   %s = %d\n", TT.str(kv.first).c_str(), (int)kv.second); }
         return false;
@@ -740,6 +780,9 @@ CmpResult Comparer::isZero(int a, bool fp) {
   CmpResult res; Poly p = N.norm(a, fp);
   if (N.capped || N.overflow) { res.v = V_UNDECIDED; res.how = "normal form exceeded the size cap"; nUndecided++; return res; }
   if (p.empty()) { res.how = "polynomial"; nPoly++; return res; }
+  if (fp && !N.invKey.empty() && N.zeroModDenominators(p)) { res.how = "polynomial (denominators cleared)"; nPoly++; return res; }
+  { std::set<int> c0, s0; selectConds(C.canon(a), c0, s0); // data-dependent control (pivoting): case split against the constant 0
+    if (!c0.empty()) { int zero = fp ? TT.cfp(0, TT.t[a].bytes) : TT.cint(0, TT.t[a].bytes); CmpResult r2 = compare(a, zero, fp ? "ALG" : "EXACT", fp, TT.t[a].bytes); if (r2.v != V_UNDECIDED || true) { if (r2.expected.empty()) r2.expected = "0"; return r2; } } }
   res.got = polyStr(p); res.expected = "0";
   std::string pt, va, vb; bool evaluable = false;
   int zero = fp ? TT.cfp(0, TT.t[a].bytes) : TT.cint(0, TT.t[a].bytes);
